@@ -41,7 +41,8 @@ DEVICES = ["cpu", "CPU", "cuda", "cuda:0", "cuda:1", "gpu", "GPU", "mps", "xcpux
            TD + "cpu", TD + "cpu:0", TD + "mps", TD + "mps:0", TD + "cuda", TD + "cuda:1", TD + "meta",
            # spellings torch.device() itself refuses, near-misses of the accepted words, indices at the device count
            "cuda:2", "cuda:3", "cuda:01", "cuda:", "cuda:-1", "cuda: 1", "CUDA", "cuda:1x", "cuda:0:1", " cuda", "cuda ",
-           "xgpux", "my-gpu-box", "gpu:0", "Gpu", "mps:0", "xmps", "cpu ", " cpu", "Cpu", "cpux", 2, 3, False, 0.0, {"cpu": 1},
+           "xgpux", "my-gpu-box", "gpu:0", "Gpu", "mps:0", "xmps", "cpu ", " cpu", "Cpu", "cpux", 2, 3, False, 2.5, {"cpu": 1},
+           "cpu:banana", "cpu:-1", "CPU:", "cpu:0:0", "mps:1", "mps:x",
            TD + "cuda:0", TD + "cuda:2", TD + "cuda:3"]
 # device environments: the real one plus simulated ones (torch availability answers are stubbed from the
 # harness process, the code under test is unchanged): n = torch.cuda.device_count(), cur = current_device()
@@ -76,7 +77,10 @@ def to_tree(v):
 
 def gen_leaf(rng):
     return rng.weighted([(0, 2), (1, 2), (2, 2), (7, 2), (True, 1), (False, 1), (None, 1), ("s", 2), ("", 1), ("float32", 1),
-                         ([1, 2], 1), ([], 1), (["x", "y"], 1)])
+                         ([1, 2], 1), ([], 1), (["x", "y"], 1),
+                         # values of another type that print alike / compare equal but print differently
+                         ("2", 0.6), ("7", 0.6), ("None", 0.4), ("False", 0.4), ("True", 0.3), (0.5, 0.5), ("0.5", 0.4), (2.0, 0.6),
+                         (1.0, 0.4), (0.0, 0.4), ("[1, 2]", 0.3)])
 
 
 def gen_value(rng, depth=0):
@@ -308,8 +312,22 @@ def ref_update_defaults(cfg, new, cur_defaults):
             d = cur_defaults.get(k) if isinstance(cur_defaults, dict) else None
             ref_update_defaults(cfg[k], v, d if isinstance(d, dict) else {})
         else:
+            if (k in cfg and isinstance(cfg[k], dict) and isinstance(cur_defaults, dict) and isinstance(cur_defaults.get(k), dict)
+                    and cur_defaults[k] == cfg[k] and _has_sep_key(cfg[k])):
+                # a scalar default replaces a MAPPING default that the configuration still holds: whether "the value is
+                # still the default" then depends on the '-'/'_' spellings inside the two mappings (dict == is spelling
+                # sensitive), which the property text does not settle; left to the model comparison
+                raise Undecided()
             if k not in cfg or (isinstance(cur_defaults, dict) and k in cur_defaults and cur_defaults[k] == cfg[k]):
                 cfg[k] = v
+
+
+class Undecided(Exception):
+    pass
+
+
+def _has_sep_key(v):
+    return isinstance(v, dict) and any("_" in k or _has_sep_key(x) for k, x in v.items())
 
 
 def ref_device(v, env=None):
@@ -678,7 +696,11 @@ def _run_sequence(ctx, drv, cfgmod, ops, init, env, module_state):
                 for d in ref.defaults:
                     ref_merge(cur, copy.deepcopy(d))
                 ref.defaults.append(n)
-                ref_update_defaults(ref.cfg, copy.deepcopy(n), cur)
+                try:
+                    ref_update_defaults(ref.cfg, copy.deepcopy(n), cur)
+                except Undecided:
+                    ctx.dist["ref-undecided-mapping-default"] += 1
+                    ref.valid = False
             elif "err" in res:
                 ref.valid = False
         elif kind == "refresh" and ref.valid and "err" not in res:
@@ -963,6 +985,49 @@ def stream_update_merge(ctx, drv, cfgmod, env):
                 ctx.disagree("merge", case, m, impl)
 
 
+# (registered default, value the user sets): either another type with the same str(), or ==-equal values that print
+# differently; `update_defaults` must compare them as Python VALUES ("2" != 2, 5.0 == 5, True == 1)
+COINCIDENCES = [(2, "2"), ("2", 2), (None, "None"), ("None", None), (False, "False"), ("False", False), (True, "True"), ("True", True),
+                (0.5, "0.5"), ("0.5", 0.5), ("7", 7), (7, "7"), ([1, 2], "[1, 2]"), ("[1, 2]", [1, 2]), ([], "[]"), ("", None), (None, ""),
+                (0, "0"), ("0", 0), (0, None), (None, 0), (False, None), (None, False), (0, ""), ("", 0), ("", False), ([], None),
+                (5, 5.0), (5.0, 5), (True, 1), (1, True), (False, 0), (0, False), (1.0, True), (True, 1.0), (0.0, False), (0, 0.0),
+                (2.0, 2), ("float32", "float32"), (7, 7), (None, None), ("", ""), ([1, 2], [1, 2])]
+
+
+def stream_coincidences(ctx, drv, cfgmod, env, module_state):
+    """a FIXED block of histories (in every run, independent of the seed): register a default, set a value that
+    coincides with it in text or in value, register a new default on the same key, read, refresh, read — over the
+    coincidence table x key forms (flat, nested, the other '-'/'_' spelling, a shipped default) x start states."""
+    forms = [("k9", "k9", "k9"), ("sec.k9", "sec.k9", "sec.k9"), ("a_b9", "a-b9", "a-b9"), ("viz.c-d9", "viz.c_d9", "viz.c_d9")]
+
+    def nest(key, v):
+        out = v
+        for seg in reversed(key.split(".")):
+            out = {seg: out}
+        return out
+
+    for d, u in COINCIDENCES:
+        for n in ("NEW", 99):
+            for kd, ku, kn in forms:
+                for init in ("empty", "module"):
+                    ops = [{"op": "update_defaults", "new": nest(kd, d)}, {"op": "set", "arg": [[ku, u]], "kwargs": []},
+                           {"op": "update_defaults", "new": nest(kn, n)}, {"op": "get", "key": kd}, {"op": "refresh"},
+                           {"op": "get", "key": ku}]
+                    run_sequence(ctx, drv, cfgmod, ops, init, env, module_state, env)
+            # the shipped default mkl.threads = 2 / verbose = 1 (no registration step of our own)
+        for key, dflt in (("mkl.threads", 2), ("verbose", 1), ("viz.cmap", "gray")):
+            if d == dflt and type(d) is type(dflt):
+                ops = [{"op": "set", "arg": [[key, u]], "kwargs": []}, {"op": "update_defaults", "new": nest(key, "NEW")},
+                       {"op": "get", "key": key}, {"op": "refresh"}, {"op": "get", "key": key}]
+                run_sequence(ctx, drv, cfgmod, ops, "module", env, module_state, env)
+    # the same on the shipped defaults with the user's value typed as text / as a float
+    for key, u in (("mkl.threads", "2"), ("mkl.threads", 2.0), ("verbose", "1"), ("verbose", 1.0), ("verbose", True),
+                   ("warnings.suppress-all-", "False"), ("warnings.suppress-all-", 0), ("viz.cmap", "gray")):
+        ops = [{"op": "set", "arg": [[key, u]], "kwargs": []}, {"op": "update_defaults", "new": nest(key, "NEW")},
+               {"op": "get", "key": key}, {"op": "refresh"}, {"op": "get", "key": key}]
+        run_sequence(ctx, drv, cfgmod, ops, "module", env, module_state, env)
+
+
 def gen_sequence(rng):
     touched, ops, depth = [], [], 0
     for _ in range(rng.randint(2, 14)):
@@ -1000,6 +1065,7 @@ def run(ctx):
         stream_initialize(ctx, drv, cfgmod, saved_cfg, saved_defaults, env)
         stream_validate_device(ctx, drv, cfgmod, env)
         stream_update_merge(ctx, drv, cfgmod, env)
+        stream_coincidences(ctx, drv, cfgmod, env, (saved_cfg, saved_defaults))
         nseq = ctx.n(4000, 30000)
         for s in range(nseq):
             rng = ctx.rng.fork(s)
